@@ -751,7 +751,8 @@ def judge_req(sim, ev, rec):
         genuine = [t for t in rec["tool"] if t.get("op") == "verify" and t.get("genuine_ok")]
         if not genuine:
             hits.append(("no-genuine-verify", "tool=%s" % [(t.get("fault"), t.get("healthy_ok")) for t in rec["tool"]]))
-    elif spec.get("want_authn_requests_signed") and idp.kind == "idp":
+    elif (spec.get("want_authn_requests_signed") or spec.get("only_valid_cert")) and idp.kind == "idp":
+        # (want_authn_requests_only_with_valid_cert implies that a signature is wanted)
         hits.append(("unsigned-but-required", ""))
     F["hits"] = [h[0] for h in hits]
     for rule, _ in hits:
